@@ -5,6 +5,8 @@ import (
 	"encoding/json"
 	"fmt"
 	"os"
+	"regexp"
+	"sort"
 	"strings"
 	"testing"
 	"time"
@@ -153,7 +155,7 @@ type EditCase struct {
 }
 
 var recEdit = ev.New("C16", "c16.text-only-classification",
-	"edit sequences T0 -> T1 -> ... (1..6 edits drawn from: text changes, constant attribute changes, renaming an expression attribute to/from style, class, href, action, onclick, hx-on:*, moving an expression between text, attribute and script positions, quoting/unquoting {{ }} inside a script, swapping / wrapping / renaming / adding / dropping nodes) are fed through generatecmd's FSEventHandler in development mode with advancing modification times. "+
+	"edit sequences T0 -> T1 -> ... (1..6 edits drawn from: text changes, constant attribute changes, renaming an expression attribute to/from style, class, href, action, onclick, hx-on:*, moving an expression between text, attribute and script positions, quoting/unquoting {{ }} inside a script, replacing a variable or literal inside any Go expression, swapping / wrapping / renaming / adding / dropping nodes; a third of the first versions carry an attribute name in upper or mixed case) are fed through generatecmd's FSEventHandler in development mode with advancing modification times. "+
 		"Oracle: after every version the development text file on disk holds exactly that version's literals (what the running program will print); whenever the handler classifies an edit as needing no recompilation (GoUpdated == false), the Go generated for the new version must have the same token stream as the Go that was compiled last, with only the string literals handed to templruntime.WriteString and the positions in templ.Error masked - then the running binary reading the new text file is the new program. "+
 		"Non-trivial = an edit classified text-only; distinct by (versions)")
 
@@ -166,6 +168,37 @@ type editError struct {
 }
 
 func (e *editError) Error() string { return e.msg }
+
+var placeholder = regexp.MustCompile(`\{\{\s*(.*?)\s*\}\}`)
+
+// scriptPlaceholders lists the Go expressions inside {{ }} of script elements, which tgen keeps
+// as part of the script text (the printer has no record for them).
+func scriptPlaceholders(f *tgen.File) []string {
+	var out []string
+	var walk func(ns []tgen.Node)
+	walk = func(ns []tgen.Node) {
+		for i := range ns {
+			n := &ns[i]
+			if n.Kind == "script" {
+				for _, m := range placeholder.FindAllStringSubmatch(n.Text, -1) {
+					out = append(out, m[1])
+				}
+			}
+			walk(n.Kids)
+			walk(n.Else)
+			for j := range n.ElseIfs {
+				walk(n.ElseIfs[j].Kids)
+			}
+			for j := range n.Cases {
+				walk(n.Cases[j].Kids)
+			}
+		}
+	}
+	for i := range f.Templates {
+		walk(f.Templates[i].Body)
+	}
+	return out
+}
 
 func masked(goSrc string) ([]gonorm.Tok, error) { return gonorm.Tokens(goSrc, true) }
 
@@ -184,10 +217,18 @@ func decideEditsN(c EditCase) (textOnly int, err error) {
 	var compiled []gonorm.Tok
 	var compiledSrc string
 	var compiledOut generator.GeneratorOutput
+	var compiledExprs []string
 	prevSrc := ""
 	for i, f := range c.Versions {
 		tgen.Normalize(f)
-		src, _ := tgen.Print(f, "P0")
+		src, recs := tgen.Print(f, "P0")
+		// the Go expressions the template's author wrote (from the printer, not from templ)
+		var exprs []string
+		for _, r := range recs {
+			exprs = append(exprs, strings.TrimSpace(r.Text))
+		}
+		exprs = append(exprs, scriptPlaceholders(f)...)
+		sort.Strings(exprs)
 		g, _, gerr := tc.Generate(src, "p0.templ")
 		if gerr != nil {
 			return textOnly, nil // a version templ generate rejects ends the sequence (the watcher reports the error)
@@ -212,7 +253,7 @@ func decideEditsN(c EditCase) (textOnly int, err error) {
 		}
 		prevSrc = src
 		if i == 0 || r.GoUpdated {
-			compiled, compiledSrc, compiledOut = toks, src, g.Output
+			compiled, compiledSrc, compiledOut, compiledExprs = toks, src, g.Output, exprs
 			recEdit.Class("recompile")
 			continue
 		}
@@ -223,7 +264,9 @@ func decideEditsN(c EditCase) (textOnly int, err error) {
 			edit = c.Edits[i-1]
 		}
 		if d := gonorm.Diff(compiled, toks); d != "" {
-			known := len(compiledOut.Literals) == len(g.Output.Literals) && fmt.Sprint(compiledOut.SourceMap.Expressions) == fmt.Sprint(g.Output.SourceMap.Expressions)
+			// the listed finding: same number of literals and the same Go expressions (as the author
+			// wrote them - not as templ recorded them), only arranged into different code
+			known := len(compiledOut.Literals) == len(g.Output.Literals) && fmt.Sprint(compiledExprs) == fmt.Sprint(exprs)
 			return textOnly, &editError{known: known, msg: fmt.Sprintf("edit %d (%s) was classified as needing no recompilation, but the generated Go differs from the compiled one beyond its text literals: %s\n--- compiled version:\n%s\n--- edited version:\n%s", i, edit, d, compiledSrc, src)}
 		}
 	}
@@ -261,7 +304,15 @@ func TestPropEdits(t *testing.T) {
 	o.Extras = false
 	g := tgen.GenFile(o)
 	rapid.Check(t, func(t *rapid.T) {
-		c := EditCase{Versions: []*tgen.File{g.Draw(t, "t0")}}
+		t0 := g.Draw(t, "t0")
+		if rapid.IntRange(0, 2).Draw(t, "oddAttrName") == 0 {
+			// attribute names in other letter case name the same attributes to a browser, and the
+			// generator has special paths for class, style and on*
+			if tgen.RenameExprAttr(t, t0, []string{"Class", "CLASS", "cLaSs", "Title", "DATA-X"}) {
+				recEdit.Class("first version has an attribute name in upper or mixed case")
+			}
+		}
+		c := EditCase{Versions: []*tgen.File{t0}}
 		for i, n := 0, rapid.IntRange(1, 6).Draw(t, "nedits"); i < n; i++ {
 			next, edit := tgen.Mutate(t, c.Versions[len(c.Versions)-1])
 			if next == nil {
